@@ -455,6 +455,9 @@ def r2(ctx):
             return leaves(x[1])
         if x[0] == "phi":
             return [y for v in x[1] for y in leaves(v)]
+        if x[0] == "call" and re.search(r"(Try>?::branch|FromResidual(<.*>)?>?::from_residual)$", short(x[1])) and x[2]:
+            # `attempt?`: what leaves the function is the attempt's own Ok payload or its own Err
+            return leaves(x[2][-1])
         return [x]
     bad = [fmt(x)[:120] for a_ in alts for x in leaves(a_) if not (x[0] == "call" and short(x[1]).endswith("crypto::decrypt_message"))]
     rule.check(not bad, "Session::decrypt_message returns only the result of an attempt", "Session::decrypt_message|result", "Session::decrypt_message can return %s" % bad, loc=sd.loc(sd.line))
